@@ -375,6 +375,27 @@ func c06Oracle(r *SeqRun) []Viol {
 			}
 		}
 	}
+	// (2b) a completed Del has put its tombstone at the FIFO's tail (it is what orders the delete
+	// behind earlier buffered writes and releases the key's accounting)
+	if n > 0 && (r.Hist[n-1].K == "op" || r.Hist[n-1].K == "resume") && r.Status[n-1] == "yielded" {
+		var last *vsched.Event
+		for i := len(r.Events) - 1; i >= 0 && i >= r.EvStart[n-1]; i-- {
+			if k := r.Events[i].Kind; k == evDelRet || k == evSetRet || k == evGetRet || k == evWaitRet || k == evGetTTLRet {
+				last = &r.Events[i]
+				break
+			}
+		}
+		if last != nil && last.Kind == evDelRet {
+			okTail := false
+			if m := len(r.Post.SetBufItems); m > 0 {
+				t := r.Post.SetBufItems[m-1]
+				okTail = t.Flag == 1 && int64(t.Key) == last.A
+			}
+			if !okTail {
+				out = append(out, Viol{Key: "C06/del-returned-without-buffering-its-tombstone", What: fmt.Sprintf("Del(%d) returned but the write buffer's tail is not its delete marker", last.A)})
+			}
+		}
+	}
 	// the map and the accounting equal the reference in the state reached
 	got := map[int64]c06Entry{}
 	for _, e := range r.Post.Store {
